@@ -15,7 +15,8 @@ for sid in sorted(os.listdir(os.path.join(HERE, "seeded"))):
         caught.append("%s: %s" % (prop, ("**caught** (%d keys, e.g. `%s`)" % (x["violations"], x["keys"][0].split(" count=")[0].replace("key=", "")[:70])) if x["violations"] else "missed"))
     rows.append("| %s | %s | %s | %s | %s | %s |" % (sid, m["property"], m["what"][:160].replace("|", "\\|"), m["needs_to_manifest"][:150].replace("|", "\\|"),
                 "yes" if v.get("confirmed") else ("tests+demo: " + str({k: v.get(k) for k in ("stock_tests_pass_with_change", "demo_with_change_exit", "demo_without_change_exit")}) if v else "-"),
-                "; ".join(caught) + ((" — " + m["detection_history"]) if m.get("detection_history") else "")))
+                ("not a break on the repaired tree, nothing to report — " + m["status_note"]) if m.get("status_note") else
+                ("; ".join(caught) + ((" — " + m["detection_history"]) if m.get("detection_history") else ""))))
 print("| id | prop. | change | needs | confirmed (builds, 19 stock tests pass, demo fails with / passes without) | registered quick check on a scratch tree with the change |")
 print("|---|---|---|---|---|---|")
 print("\n".join(rows))
